@@ -1,5 +1,5 @@
 #!/usr/bin/env python3
-"""Rewrites DESIGN.md section 12.7 (measured quick-tier cost) from the evidence files of the last runs."""
+"""Rewrites DESIGN.md section 12.10 (measured quick-tier cost) from the evidence files of the last runs."""
 import json, os, re
 V = os.path.dirname(os.path.dirname(os.path.abspath(__file__)))
 rows = ["| property | tier | seed | evaluations | distinct non-trivial | wall (s) | known findings reported | violations |", "|---|---|---|---|---|---|---|---|"]
@@ -12,9 +12,9 @@ for i in range(1, 21):
         continue
     c = e["coverage"]
     rows.append("| %s | %s | %s | %s | %s | %.0f | %d | %s |" % (pid, e["tier"], e["seed"], c.get("evaluations"), c.get("distinct_nontrivial"), e["wall_s"], len(c.get("known_findings_reported", [])), e.get("violations", 0)))
-text = "### 12.7 Measured cost of the last committed runs (from `evidence/*.json`; 16 cores; wall time of a passing run)\n\n" + "\n".join(rows) + "\n"
+text = "### 12.10 Measured cost of the last committed runs (from `evidence/*.json`; 16 cores; wall time of a passing run)\n\n" + "\n".join(rows) + "\n"
 p = os.path.join(V, "DESIGN.md")
 s = open(p).read()
-s = re.sub(r"\n### 12\.7 Measured cost.*?(?=\n### |\n## |\Z)", "\n", s, flags=re.S).rstrip("\n") + "\n\n" + text
+s = re.sub(r"\n### 12\.10 Measured cost.*?(?=\n### |\n## |\Z)", "\n", s, flags=re.S).rstrip("\n") + "\n\n" + text
 open(p, "w").write(s)
-print("DESIGN.md 12.7 rewritten")
+print("DESIGN.md 12.10 rewritten")
